@@ -132,6 +132,8 @@ class CrashSquid(rig.Squid):
         args = [self.binary(), "-N", "-n", self.name, "-f", self.conf_path, "-d1"]
         self.errlog = open(os.path.join(self.dir, "stderr.log"), "ab")
         self.proc = subprocess.Popen(args, env=self.env, stdout=self.errlog, stderr=self.errlog, start_new_session=True, stdin=subprocess.DEVNULL)
+        if getattr(self, "on_spawn", None):
+            self.on_spawn(self.proc.pid)        # registered with the reaper before anything else can go wrong
         self.errlog.close()
         t0 = time.time()
         while time.time() - t0 < wait * rig.VERIF_SLOW:
@@ -281,6 +283,7 @@ class Run:
         conf = dirconf(sc["store"]) + COMMON + ("cache_peer 127.0.0.1 parent %d 0 no-query no-digest originserver name=o\n"
                                                  "never_direct allow all\n" % self.origin.port)
         self.sq = CrashSquid(h.stage, conf=conf)
+        self.sq.on_spawn = h.reaper.add
         self.cache = os.path.join(self.sq.dir, "cache")
         r = subprocess.run(["cp", "-a", h.template(sc["store"]), self.cache], capture_output=True, text=True)
         if r.returncode != 0:
@@ -612,8 +615,6 @@ class Run:
         self.sq.proc = None
         for attempt in range(3):
             st = self.sq.start()
-            if self.sq.proc is not None:
-                self.h.reaper.add(self.sq.proc.pid)
             if st == "ok":
                 return "ok"
             if st.startswith("exit") and "Address already in use" in self.sq.cache_log() + self._stderr():
